@@ -335,7 +335,7 @@ type brokerDomain struct {
 	vnow        int64 // virtual clock of the connections' read deadlines (ms)
 	realtime    bool
 	auth        auth.AuthenticationHandler // a real credential store (nil: the harness rule)
-	realLog     bool // the next `reset` gives every node a real commit-log store instead of the in-memory log
+	realLog     bool                       // the next `reset` gives every node a real commit-log store instead of the in-memory log
 	seq         int
 	runaway     bool // the broker never became quiet within the settle deadline: stop driving it
 }
